@@ -934,6 +934,12 @@ class Engine:
         if 'error_already_set' in cls:
             st.ghost['pyerr'] = z3.BoolVal(False)      # the pending Python error is transferred into the C++ exception
         if cls == 'optree::InternalError':
+            # an InternalError site is a consistency check that must be unreachable - unless the contract names it as a
+            # designed guard against hostile inputs (then it is an ordinary exceptional exit whose condition the code tests)
+            if any(msg.startswith(g) for g in getattr(self.cur_contract, 'designed_guards', ())):
+                self.effects_of_message(n.c[0], st)
+                self.throw(st, 'optree::InternalError(guard)', n.get('line'), msg)
+                return []
             self.oblige(st, 'I', f'unreachable:{msg}', z3.BoolVal(False), n.get('line'))
         # evaluate operands for their effects (PyRepr etc.) only coarsely: message building is dropped
         self.effects_of_message(n.c[0], st)
